@@ -49,6 +49,13 @@ def gen(tier, seed, index):
         return G.gen_sibling_dependency_spec(rng), dict(typed=False, dtype='float32' if f32 else 'float64', forced=['sibling-dependencies'])
     spec = G.gen_spec(rng, 'nonrec', forced, max_nodes=mn, max_edges=me, typed=typed,
                       allow_inf=True)
+    if index % 7 == 3 and spec['rules']:
+        # the same rule added twice (a copy with the same node and edge ids): rules are a multiset, both count
+        import copy
+        j = rng.randrange(len(spec['rules']))
+        if spec['rules'][j].get('dup_of') is None:
+            spec['rules'].append(dict(copy.deepcopy(spec['rules'][j]), dup_of=j))
+            forced = forced + ['rule-added-twice']
     return spec, dict(typed=typed, dtype='float32' if f32 else 'float64', forced=forced)
 
 
